@@ -172,20 +172,31 @@ func GosymH_C12_putorder() {
 			gosym_Assume(weights[i] != weights[j])
 		}
 	}
+	retries := gosym_Choice("retries", gosym_Param("maxretries", 1)+1)
 	kc := &KeepClient{Arvados: &arvadosclient.ArvadosClient{ApiToken: "tok"}, disableDiscovery: true, localRoots: local, writableLocalRoots: writable,
-		gatewayRoots: map[string]string{}, Want_replicas: 1, Retries: 0, replicasPerService: 1, RequestID: "req-x"}
+		gatewayRoots: map[string]string{}, Want_replicas: 1, Retries: retries, replicasPerService: 1, RequestID: "req-x"}
 	gosymUps, gosymAttempts = nil, map[string]int{}
-	gosymForcedOutcome = 2 // 403
+	gosymForcedOutcome = 2 // 403: refused, not retried
+	if retries > 0 {
+		gosymForcedOutcome = 4 // 500: every service fails transiently, so each round walks the whole list again
+	}
 	_, _, err := kc.putReplicas(hash, func() io.Reader { return bytes.NewReader([]byte("foo")) }, 3)
 	gosym_Quiesce()
+	gosymForcedOutcome = -1
 	gosym_Assert(err != nil, "all-refused-means-failure")
-	gosym_Assert(len(gosymUps) == n, "every-writable-service-tried-exactly-once")
+	gosym_Assert(len(gosymUps) == n*(1+retries), "every-writable-service-tried-exactly-once-per-round")
 	for k := 0; k+1 < len(gosymUps); k++ {
+		if (k+1)%n == 0 {
+			continue // round boundary
+		}
 		a, b := gosymIndexOf(hosts, gosymUps[k].host), gosymIndexOf(hosts, gosymUps[k+1].host)
 		gosym_Assert(a >= 0 && b >= 0, "only-writable-services-are-tried")
 		if a >= 0 && b >= 0 {
 			gosym_Assert(weights[a] > weights[b], "write-probe-order-is-descending-reference-weight")
 		}
+	}
+	if retries > 0 {
+		gosym_Reach("retry-round")
 	}
 	gosym_Reach("done")
 }
